@@ -11,10 +11,11 @@ EXPLANATION = ("bounded stand-in: for generated actions (every generator precond
                "Action.change_signature yields the view rename(view before): same number, order and types of parameters, renamed formula and "
                "effects incl. when / forall parts; members of the hash sets remain findable; behaviour on a sample of states/calls is identical.")
 TRUSTED = ["spec rename() in this file (substitution of parameter names in a view)", "behavioural clause = view equality + sampled Operator runs"]
-ASSUMPTIONS = ["bounded: 2 parameters; 7 renamings; bodies from spec/gen.py"]
+ASSUMPTIONS = ["bounded: 2 parameters; 7 renamings; bodies from spec/gen.py; renaming dicts also listed in another order than the signature and with an unused entry"]
 
 RENAMINGS = [{"?x": "?n1", "?y": "?n2"}, {"?x": "?y", "?y": "?x"}, {"?x": "?y", "?y": "?w"}, {"?x": "?w", "?y": "?x"},
-             {"?x": "?x", "?y": "?y"}, {"?x": "?param_0", "?y": "?param_1"}, {"?x": "?x", "?y": "?x2"}]
+             {"?x": "?x", "?y": "?y"}, {"?x": "?param_0", "?y": "?param_1"}, {"?x": "?x", "?y": "?x2"},
+             {"?y": "?m2", "?x": "?m1"}, {"?y": "?x", "?x": "?y"}, {"?zz": "?unused", "?y": "?q2", "?x": "?q1"}]
 
 
 def rename(v, rho, bound=()):
@@ -80,7 +81,7 @@ class Renaming(Harness):
     shards = 8
     functions = ("Action.change_signature", "Precondition.change_signature", "CompoundPrecondition.change_signature", "Predicate.change_signature",
                  "PDDLFunction.change_signature", "NumericalExpressionTree.change_signature")
-    bound = {"quick": "formulas(1) as precondition with a fixed effect, effect_bodies(1) as effect with a fixed precondition, x 7 renamings (fresh, swap, two chains, identity, ?param_i, partial)", "thorough": "formulas(2)/effect_bodies(2)"}
+    bound = {"quick": "formulas(1) as precondition with a fixed effect, effect_bodies(1) as effect with a fixed precondition, x 10 renamings (fresh, swap, two chains, identity, ?param_i, partial; dict listed in reverse order; extra unused entry)", "thorough": "formulas(2)/effect_bodies(2)"}
     rule = "(body, renaming); non-trivial = renaming is not the identity; distinct by input"
 
     def inputs(self, tier, seed):
